@@ -16,8 +16,9 @@ RULE = ("one `rt <ver> <endianness> <type> <value>` line per case: random dynami
         "long strings) and enumerations declared appendable / mutable - these are inside the model and the theorem; one "
         "case in nine additionally draws UNIONS (final / appendable / mutable; discriminator kinds u8..i32; several labels "
         "per branch; the default branch at any position or missing; unions nested in unions, in collections, optional). "
-        "FINAL unions are inside the Lean model and the theorem (differential + oracle like every other case). "
-        "APPENDABLE and MUTABLE unions are NOT in the Lean model: a case whose type text contains `UA` or `UM` (model "
+        "FINAL and (follow-up 4, after the repair of D77 / D78) APPENDABLE unions are inside the Lean model and the theorem "
+        "(differential + oracle like every other case). "
+        "MUTABLE unions are NOT in the Lean model: a case whose type text contains `UM` (model "
         "answer `unmodelled`) is the ORACLE-ONLY PART - it runs on the implementation only and is judged by the "
         "round-trip oracle (decode(serialize v) = v on the real code, with and without the recorded padding)")
 ASSUMPTIONS = [
@@ -185,11 +186,12 @@ def run(ctx):
     # the oracle-only part: unions are not modelled
     def is_u(c):
         tk = c.lines[0].split()
-        return tk[0] == "rt" and ("UA" in tk[3] or "UM" in tk[3])
+        return tk[0] == "rt" and "UM" in tk[3]
     ucases = [c for c in cases if is_u(c)]
     cases = [c for c in cases if not is_u(c)]
-    ctx.count("oracle-only part (type has an appendable / mutable union)", len(ucases))
+    ctx.count("oracle-only part (type has a mutable union)", len(ucases))
     ctx.count("type has a final union (inside the model)", sum(1 for c in cases if c.lines[0].startswith("rt ") and "UF" in c.lines[0].split()[3]))
+    ctx.count("type has an appendable union (inside the model)", sum(1 for c in cases if c.lines[0].startswith("rt ") and "UA" in c.lines[0].split()[3]))
     for c in ucases:
         tk = c.lines[0].split()
         t, v = X.parse_ty(tk[3]), X.parse_val(tk[4])
@@ -241,7 +243,7 @@ TECHNIQUE = ("Lean 4 round-trip theorems by mutual structural induction over the
              "`de (ser v ++ rest) = ok v, rest, position`) + differential correspondence of the transcription model with "
              "the real serializer / deserializer on random dynamic types")
 LEVEL_TEXT = ("Kernel-checked Lean theorems over ALL types and values accepted by the decidable predicate wfVal (primitives, strings, "
-              "wide strings incl. characters outside the BMP, enumerations of any declared extensibility, FINAL unions (default "
+              "wide strings incl. characters outside the BMP, enumerations of any declared extensibility, final and appendable unions (default "
               "branch at any position, several labels per branch, nested, in collections), sequences, arrays, final / appendable / mutable structures nested arbitrarily, optional and absent "
               "members, ids in any order): C09_roundtrip_partial / C09_roundtrip_nested_partial (decode(serialize v ++ rest) = v with "
               "the exact remainder and final alignment position, for XCDR1 and XCDR2, both byte orders, every repair configuration; "
@@ -253,9 +255,10 @@ LEVEL_TEXT = ("Kernel-checked Lean theorems over ALL types and values accepted b
               "repaired by fixes/*.patch). The model is tied to serializer.rs / deserializer.rs by a differential run: the real "
               "bytes and the real decoded values of thousands of random dynamic types are compared with the model's, line by "
               "line; an oracle violation is attributed to a finding only if the Lean predicate wfVal itself rejects the case. "
-              "ORACLE-ONLY PART: appendable and mutable unions are not in the Lean model (three of their four uses do not work in "
-              "the code: findings D77-D79); cases with them run on the implementation only and are judged by the round-trip "
-              "oracle; nothing is proved about them.")
+              "FOLLOW-UP 4: the model is the code with fixes/D63 D77 D78 D79 D80 -xcdr.patch: CHAR8 0..255, appendable unions and "
+              "unions without active member are inside wfVal and the theorems. "
+              "ORACLE-ONLY PART: mutable unions are not in the Lean model; cases with them run on the implementation only and "
+              "are judged by the round-trip oracle; nothing is proved about them.")
 LEVEL_NOTE = ("Trusted: Lean kernel (axioms propext, Classical.choice, Quot.sound at most); the hand-written transcription "
               "Model/Xcdr.lean (+ the decidable well-formedness predicate Model/XcdrWF.lean, which states the real limits: value "
               "ranges, u16/u32 size fields, CHAR8 < 128, distinct member ids); the harness that builds DynamicType/DynamicData "
